@@ -198,6 +198,21 @@ class G:
                 self.add({"kind": "sink", "mode": "sync", "f": f, "ups": [u]}, None)
 
 
+def add_call_forms(rng, nodes):
+    """map / starmap / filter / accumulate / sink accept extra arguments for the user function: a third of those nodes hand their
+    function over together with an extra positional or keyword argument (same meaning), filter(truthy) sometimes as filter(None)"""
+    for nd in nodes:
+        if nd["kind"] in ("map", "starmap", "filter", "accumulate") or (nd["kind"] == "sink" and nd.get("mode") == "sync"):
+            r = rng.random()
+            if nd["kind"] == "filter" and nd.get("f") == ["truthy"] and r < 0.4:
+                nd["call_form"] = "none"
+            elif r < 0.18:
+                nd["call_form"] = "args"
+            elif r < 0.36:
+                nd["call_form"] = "kwargs"
+    return nodes
+
+
 def gen_pipeline(rng, mode, fail_prob=0.0, malformed=0.0, max_nodes=9):
     g = G(rng, allow_async_sinks=(mode == "async"), allow_partition=(mode == "async"),
           fail_prob=fail_prob, malformed=malformed, max_nodes=max_nodes)
@@ -214,7 +229,7 @@ def gen_pipeline(rng, mode, fail_prob=0.0, malformed=0.0, max_nodes=9):
                 g.add({"kind": "sink", "mode": "async", "ups": [i]}, None)
             else:
                 g.add({"kind": "sink", "mode": "sync", "f": ["id"], "ups": [i]}, None)
-    return g.nodes
+    return add_call_forms(rng, g.nodes)
 
 
 def feedback_template(rng):
